@@ -50,7 +50,7 @@ MEMBER_FAULTS = {
 REQUIRED_BUCKETS = (['fault:' + k for k in FAULTS] + ['fault:' + k for k in MEMBER_FAULTS] + ['fault:reader-raises', 'pos:first-statement', 'pos:end-of-file',
                     'pos:in-included-file', 'pos:depth3', 'pos:after-include', 'pos:after-block', 'pos:block-member-0', 'pos:block-member-k', 'pos:after-multiline-value',
                     'root:string', 'root:file', 'followup:compared', 'message:chain-2+', 'provenance:file', 'provenance:string', 'provenance:programmatic',
-                    'provenance:block-member', 'provenance:overwritten', 'provenance:macro'])
+                    'provenance:block-member', 'provenance:overwritten', 'provenance:macro', 'provenance:restated-same-value'])
 ORACLE_COUNTERS = ['oracle_evals', 'faults_injected', 'prefix_stores_compared', 'messages_checked', 'provenance_lines_checked']
 LOC = re.compile(r'In (?:file "([^"]*)",|(bindings string)) line (\d+)')
 _S = {}
@@ -486,6 +486,12 @@ def gen_provenance(rng):
         else:
           items.append([rng.choice(['comment', 'blank'])])
       steps.append([kind, items])
+  # an override source restating a value an earlier source already set (same object for None/True/small ints/short strings)
+  if rng.random() < 0.6:
+    earlier = [it for st in steps if st[0] != 'bind' for it in st[1] if it[0] == 'bind' and it[4][0] == 'lit' and not it[4][2]]
+    if earlier:
+      it = rng.choice(earlier)
+      steps.append([rng.choice(['file', 'string']), [['comment'], list(it)]])
   return {'kind': 'provenance', 'steps': steps}
 
 
@@ -496,6 +502,7 @@ def run_provenance(ctx, case):
   base = os.path.join(_S['root'], 'p%d' % next(_S['n']))
   os.makedirs(base)
   setter = {}   # (scope, selector, param) -> 'src:line' or None
+  values = {}
   sel = {'c16f': 'c16.m.c16f', 'c16g': 'c16.m.c16g', 'm.c16f': 'c16.m.c16f', 'c16d': 'c16.m.c16d'}
   try:
     for si, st in enumerate(case['steps']):
@@ -533,6 +540,10 @@ def run_provenance(ctx, case):
           continue
         if k in setter:
           ctx.bucket('provenance:overwritten')
+          if it[0] == 'bind' and values.get(k) == repr(it[4]):
+            ctx.bucket('provenance:restated-same-value')
+        if it[0] == 'bind':
+          values[k] = repr(it[4])
         setter[k] = '%s:%d' % (src, start)
     text = gin.config_str(show_provenance=True)
     lines = text.splitlines()
